@@ -61,6 +61,8 @@ type Conn struct {
 	readHeaderBuf  [8]byte
 	readControlBuf [maxControlPayload]byte
 	msgReader      *msgReader
+	// readCloseFrameErr is set once a close frame has been read. Protected by readMu.
+	readCloseFrameErr error
 
 	// Write state.
 	msgWriter      *msgWriter
